@@ -157,6 +157,26 @@ func trees(names []string, minEntries, maxEntries int) []tree {
 	return out
 }
 
+// wideTrees: directories of 300 entries (files at the root, files one level down, directories at the root); every 37th
+// name contains an x.
+func wideTrees() []tree {
+	names := make([]string, 300)
+	for i := range names {
+		names[i] = fmt.Sprintf("e%03d", i)
+		if i%37 == 5 {
+			names[i] = fmt.Sprintf("x%03d", i)
+		}
+	}
+	var flat, nested, dirs tree
+	nested.Entries = append(nested.Entries, entry{Path: "e", Dir: true})
+	for _, n := range names {
+		flat.Entries = append(flat.Entries, entry{Path: n})
+		nested.Entries = append(nested.Entries, entry{Path: "e/" + n})
+		dirs.Entries = append(dirs.Entries, entry{Path: n, Dir: true})
+	}
+	return []tree{flat, nested, dirs}
+}
+
 // subsets of size 0..k of items, in a fixed order (by size, then lexicographic by index).
 func subsets(items []string, k int) [][]string {
 	out := [][]string{{}}
@@ -205,10 +225,11 @@ const (
 )
 
 type pset struct {
-	pats []string
-	part map[string]bool // name -> some pattern matches inside the name
-	full map[string]bool // name -> some pattern matches the whole name
-	re   []*regexp.Regexp
+	pats   []string
+	part   map[string]bool // name -> some pattern matches inside the name
+	full   map[string]bool // name -> some pattern matches the whole name
+	re     []*regexp.Regexp
+	reFull []*regexp.Regexp
 }
 
 func newPset(pats []string) *pset {
@@ -217,16 +238,32 @@ func newPset(pats []string) *pset {
 		rp := regexp.MustCompile(p)
 		rf := regexp.MustCompile("^(?:" + p + ")$")
 		ps.re = append(ps.re, rp)
-		for _, n := range allNames {
-			if rp.MatchString(n) {
-				ps.part[n] = true
-			}
-			if rf.MatchString(n) {
-				ps.full[n] = true
-			}
-		}
+		ps.reFull = append(ps.reFull, rf)
 	}
 	return ps
+}
+
+// isPart / isFull: some pattern matches inside the name / matches the whole name (memoised per name).
+func (ps *pset) isPart(n string) bool {
+	v, ok := ps.part[n]
+	if !ok {
+		for _, r := range ps.re {
+			v = v || r.MatchString(n)
+		}
+		ps.part[n] = v
+	}
+	return v
+}
+
+func (ps *pset) isFull(n string) bool {
+	v, ok := ps.full[n]
+	if !ok {
+		for _, r := range ps.reFull {
+			v = v || r.MatchString(n)
+		}
+		ps.full[n] = v
+	}
+	return v
 }
 
 // matchesAcrossSeparators: some pattern matches the '/'-joined relative path (used for the signature only).
@@ -255,16 +292,16 @@ func classify(t tree, ps *pset) classified {
 		c.depth[i] = len(comps)
 		cl := clsDo
 		for _, k := range comps {
-			if ps.full[k] {
+			if ps.isFull(k) {
 				cl = clsSkip
 				break
 			}
-			if ps.part[k] {
+			if ps.isPart(k) {
 				cl = clsMid
 			}
 		}
 		c.cls[i] = cl
-		c.selfFull[i] = ps.full[comps[len(comps)-1]]
+		c.selfFull[i] = ps.isFull(comps[len(comps)-1])
 		if cl != clsDo {
 			c.allDo = false
 		}
@@ -305,12 +342,13 @@ const (
 	opZip
 	opRemove
 	opCleanDir
+	opZipLimits // Zip with limits that apply: every entry that must be skipped is larger than the per-file limit
 	nOps
 )
 
-var opNames = [...]string{"Walk", "Ls", "LsRecursive+dirs", "LsRecursive-dirs", "ListDirTree", "SubDirectories", "Copy", "CopyIntoExisting", "Zip", "Remove", "CleanDir"}
+var opNames = [...]string{"Walk", "Ls", "LsRecursive+dirs", "LsRecursive-dirs", "ListDirTree", "SubDirectories", "Copy", "CopyIntoExisting", "Zip", "Remove", "CleanDir", "ZipWithLimits"}
 
-var opVerb = [...]string{"reported", "reported", "reported", "reported", "reported", "reported", "copied", "copied", "archived", "deleted", "deleted"}
+var opVerb = [...]string{"reported", "reported", "reported", "reported", "reported", "reported", "copied", "copied", "archived", "deleted", "deleted", "archived"}
 
 func (o opID) destructive() bool { return o == opRemove || o == opCleanDir }
 
@@ -323,7 +361,7 @@ func opByName(s string) (opID, bool) {
 	return 0, false
 }
 
-var nonDestructive = []opID{opWalk, opLs, opLsRecDirs, opLsRecFiles, opListDirTree, opSubDirs, opCopy, opCopyInto, opZip}
+var nonDestructive = []opID{opWalk, opLs, opLsRecDirs, opLsRecFiles, opListDirTree, opSubDirs, opCopy, opCopyInto, opZip, opZipLimits}
 var destructiveOps = []opID{opRemove, opCleanDir}
 var rootFileOps = []opID{opWalk, opCopy, opRemove} // operations that make sense when the root is a file
 
@@ -345,7 +383,12 @@ type world struct {
 	backend string
 	fs      filesystem.FS
 	base    string
+	big     map[string]bool // relative paths of the files written with more than bigFileLimit bytes
 }
+
+// bigFileLimit is the per-file limit of the ZipWithLimits operation: ordinary files of the harness are a few bytes
+// long, the files that operation must skip are written larger than the limit.
+const bigFileLimit = 16 * 1024 // (above the size a directory of a few hundred entries reports: the library also applies the limit to directories)
 
 func (w *world) root() string { return filepath.Join(w.base, "r00t") }
 
@@ -365,6 +408,24 @@ func newWorld(backend, workerDir string) (*world, error) {
 
 var osFS = filesystem.NewFs(filesystem.StandardFS)
 
+// markBig: the files an operation must skip are written larger than the per-file limit of ZipWithLimits.
+func (w *world) markBig(t tree, c classified) {
+	w.big = map[string]bool{}
+	for i, e := range t.Entries {
+		if c.cls[i] == clsSkip && !e.Dir {
+			w.big[e.Path] = true
+		}
+	}
+}
+
+func (w *world) contentOf(p string) []byte {
+	c := []byte("content of " + filepath.Base(p))
+	if rel, err := filepath.Rel(w.root(), p); err == nil && w.big[filepath.ToSlash(rel)] {
+		c = append(c, bytes.Repeat([]byte{'.'}, bigFileLimit)...)
+	}
+	return c
+}
+
 func (w *world) build(t tree) error {
 	root := w.root()
 	mk := func(p string, dir bool) error {
@@ -372,12 +433,12 @@ func (w *world) build(t tree) error {
 			if dir {
 				return w.fs.MkDir(p)
 			}
-			return w.fs.WriteFile(p, []byte("content of "+filepath.Base(p)), 0o644)
+			return w.fs.WriteFile(p, w.contentOf(p), 0o644)
 		}
 		if dir {
 			return os.Mkdir(p, 0o755)
 		}
-		return os.WriteFile(p, []byte("content of "+filepath.Base(p)), 0o644)
+		return os.WriteFile(p, w.contentOf(p), 0o644)
 	}
 	if err := mk(filepath.Join(w.base, "d3st2"), true); err != nil {
 		return err
@@ -522,9 +583,16 @@ func (w *world) run(op opID, pats []string) (res opResult) {
 				res.set[p] = true
 			}
 		}
-	case opZip:
+	case opZip, opZipLimits:
 		dest := filepath.Join(w.base, "0ut.arc")
-		res.err = w.fs.ZipWithContextAndLimitsAndExclusionPatterns(ctx, root, dest, filesystem.NoLimits(), pats...)
+		if op == opZipLimits {
+			dest = filepath.Join(w.base, "0ut2.arc") // not the archive the other zip operation of this world left
+		}
+		limits := filesystem.NoLimits()
+		if op == opZipLimits {
+			limits = filesystem.NewLimits(bigFileLimit, 1<<40, 1<<30, -1, false)
+		}
+		res.err = w.fs.ZipWithContextAndLimitsAndExclusionPatterns(ctx, root, dest, limits, pats...)
 		if b, err := w.readFile(dest); err == nil {
 			res.destArc = true
 			if zr, err := zip.NewReader(bytes.NewReader(b), int64(len(b))); err == nil {
@@ -695,7 +763,7 @@ func treeIntact(t tree, snap map[string]bool) bool {
 // judgeInvalid: the operation must fail with the kind "invalid", the tree must be intact, nothing transferred.
 func judgeInvalid(op opID, t tree, r opResult, rootAfter map[string]bool) []verdict {
 	touched := !treeIntact(t, rootAfter)
-	if !op.destructive() && len(r.set) > 0 && (op == opCopy || op == opCopyInto || op == opZip) {
+	if !op.destructive() && len(r.set) > 0 && (op == opCopy || op == opCopyInto || op == opZip || op == opZipLimits) {
 		touched = true
 	}
 	yn := map[bool]string{true: "yes", false: "no"}
@@ -816,6 +884,9 @@ func runCase(backend, workerDir, mode string, t tree, pats []string, op opID) (o
 	w, err := newWorld(backend, workerDir)
 	if err != nil {
 		return opResult{}, nil, err
+	}
+	if mode == "valid" {
+		w.markBig(t, classify(t, newPset(pats)))
 	}
 	if err := w.build(t); err != nil {
 		return opResult{}, nil, err
@@ -960,7 +1031,7 @@ func (ck *checker) pair(backend, workerDir string, g *group, t tree, ti, pi int,
 			st.invalidEvals++
 			st.nontrivial++ // every case of this group reaches the validation of the patterns
 			st.perOpNontriv[op]++
-			if op == opZip && r.destArc {
+			if (op == opZip || op == opZipLimits) && r.destArc {
 				st.zipLeftArc++
 			}
 		}
@@ -974,6 +1045,9 @@ func (ck *checker) pair(backend, workerDir string, g *group, t tree, ti, pi int,
 
 	w, err := newWorld(backend, workerDir)
 	if err == nil {
+		if g.mode == "valid" {
+			w.markBig(t, c)
+		}
 		err = w.build(t)
 	}
 	if err != nil {
@@ -1169,6 +1243,21 @@ func TestC08(t *testing.T) {
 		}
 		sp.Trees, sp.Lists = len(g.trees), len(g.lists)
 		groups = append(groups, g)
+	}
+	// wide directories: more entries than any batch a listing could be read in (a few hundred), excluded names spread
+	// over the whole directory order; at the root, one level down, and as directories
+	{
+		wide := group{name: "valid/wide-directories(300 entries)", mode: "valid", trees: wideTrees()}
+		wide.lists = [][]string{{}, {"x"}, {"y"}, {"x", "y"}, {"[xy]"}}
+		for _, l := range wide.lists {
+			key := strings.Join(l, "\x00")
+			if psetCache[key] == nil {
+				psetCache[key] = newPset(l)
+			}
+			wide.psets = append(wide.psets, psetCache[key])
+		}
+		groups = append(groups, wide)
+		specs = append(specs, groupSpec{Name: wide.name, Mode: "valid", Names: []string{"e000..e299", "x<k> every 37th"}, MinEntries: 300, MaxEntries: 301, MaxPatterns: 2, Trees: len(wide.trees), Lists: len(wide.lists)})
 	}
 	exhaustive := true
 	if n, _ := strconv.Atoi(os.Getenv("VERIF_C08_MAXTREES")); n > 0 { // development aid (profiling): never set by a registered command
